@@ -293,15 +293,16 @@ func ParseDegree(s string) (Degree, error) {
 			if symbol == "" {
 				return util.ParseUint(x)
 			}
-			if !strings.Contains(x, symbol) {
-				return 0, errContinue
+			// the mark stands in front of the number or behind it, once:
+			// Trim would take the mark as a set of characters and strip any
+			// run of them from both ends ("###5" read as "##5", "b5b" as "bb5")
+			if v, ok := strings.CutPrefix(x, symbol); ok {
+				return util.ParseUint(v)
 			}
-
-			v := strings.Trim(x, symbol)
-			if v == x {
-				return 0, errContinue
+			if v, ok := strings.CutSuffix(x, symbol); ok {
+				return util.ParseUint(v)
 			}
-			return util.ParseUint(v)
+			return 0, errContinue
 		}
 
 		value uint
